@@ -39,7 +39,8 @@ func buildCanaryTree(root string) error {
 		return err
 	}
 	for _, p := range []string{"canary.txt", "x", "y", "outer/canary.txt", "outer/x", "outer/y", "outer/..x", "outer/x..", "outer/...",
-		"outer/sib/canary.txt", "outer/sib/x", "outer/arch/keep.txt", "outer/arch/sub/inner.txt", "abs/x", "abs/y", "abs/canary.txt"} {
+		"outer/sib/canary.txt", "outer/sib/x", "outer/arch-private/secret.bin", "outer/arch2/sub/s.bin", "outer/archive.bin", "outer/arch.old/x",
+		"outer/arch/keep.txt", "outer/arch/sub/inner.txt", "abs/x", "abs/y", "abs/canary.txt"} {
 		if err := sandbox.WriteFile(filepath.Join(root, filepath.FromSlash(p)), []byte("canary:"+p)); err != nil {
 			return err
 		}
@@ -197,6 +198,12 @@ func runC15(args []string) error {
 		{filepath.Join(absRoot, "x"), true},
 		{arch + "/../arch/keep.txt", false},
 		{arch + "x/../../y", true},
+		// siblings whose names merely START with the archive directory's name (containment is not a string prefix)
+		{filepath.Join(root, "outer", "arch-private", "secret.bin"), true},
+		{filepath.Join(root, "outer", "arch2", "sub", "s.bin"), true},
+		{filepath.Join(root, "outer", "archive.bin"), true},
+		{filepath.Join(root, "outer", "arch.old", "x"), true},
+		{arch + "/../arch2/sub/s.bin", true},
 	} {
 		if err := buildCanaryTree(root); err != nil {
 			return err
